@@ -119,13 +119,14 @@ func c03Judge(proto string, exp []c03ExpStream, chunks []c03Chunk, hang bool) (s
 }
 
 type c03Out struct {
-	op, impl     string
-	key, what    string
-	chunks       int
-	rows         int
-	streams      int
-	body         []byte
-	model        bool
+	op, impl  string
+	key, what string
+	chunks    int
+	rows      int
+	streams   int
+	body      []byte
+	model     bool
+	repaired  int
 }
 
 // c03Eval: one document through parser, independent decoder, oracle; prepares the model operation.
@@ -146,6 +147,11 @@ func c03Eval(proto string, body []byte, ttl uint16) (c03Out, error) {
 	}
 	o.chunks = len(chunks)
 	o.streams = len(exp)
+	for _, s := range exp {
+		if s.Repaired {
+			o.repaired++
+		}
+	}
 	for _, c := range chunks {
 		o.rows += len(c.Rows)
 	}
@@ -245,6 +251,9 @@ func c03One(r *h.Result, b *c03Batch, proto string, d *c03Doc, rng *h.Rng, ttl u
 	r.Count(fmt.Sprintf("%s:rows=%s", proto, bucket(o.rows, []int{0, 1, 10, 100, 1000, 10000})))
 	if ttl != 0 {
 		r.Count(proto + ":ttl-header")
+	}
+	if o.repaired > 0 {
+		r.Count(proto + ":docs-with-invalid-utf8-labels-repaired")
 	}
 	if tag != "" {
 		r.Count(proto + ":" + tag)
